@@ -381,7 +381,8 @@ def int_like(f, e, depth=0, seen=None):
             return all(int_like(f, a, depth + 1, seen) or shape_like(f, a, depth + 1, seen) for a in e.args)
         if fn == "ar.do" and e.args and isinstance(e.args[0], ast.Constant) and e.args[0].value in COUNT_LIBFNS:
             return True
-        if isinstance(e.func, ast.Attribute) and e.func.attr in ("integers", "randint", "size_of", "count", "index", "bit_length"):
+        if isinstance(e.func, ast.Attribute) and e.func.attr in ("integers", "randint", "size_of", "count", "index", "bit_length", "parity"):
+            # .parity(charge): the 0 / 1 flag of a charge label (symmetry classes only define it), never element data
             return True
         return False
     if isinstance(e, ast.Name):
